@@ -40,7 +40,7 @@ def tok_class(t):
     return t
 
 
-def layout(lines, blanks, eol="\n", tail="", qmark=False, blank_lines=None):
+def layout(lines, blanks, eol="\n", tail="", qmark=False, blank_lines=None, blank_fill=""):
     out = []
     k = 0
     for li, toks in enumerate(lines):
@@ -51,7 +51,7 @@ def layout(lines, blanks, eol="\n", tail="", qmark=False, blank_lines=None):
         out.append(join(toks2, b))
         k += len(toks)
         if blank_lines and li in blank_lines:
-            out.append("")
+            out.append(blank_fill)
     return eol.join(out) + eol + tail
 
 
@@ -201,6 +201,10 @@ def run_case(case):
         variants.append(("crlf", dict(blanks=one, eol="\r\n")))
         variants.append(("nul", dict(blanks=one, tail="\x00")))
         variants.append(("blank-lines", dict(blanks=one, blank_lines={0, len(lines) - 1})))
+        # blank lines that hold blanks, after the first, a middle and the last line, under each kind of line end
+        for nm, e in (("lf", "\n"), ("cr", "\r"), ("crlf", "\r\n")):
+            variants.append(("blanks-only-lines-" + nm, dict(blanks=one, eol=e, blank_lines={0, len(lines) // 2, len(lines) - 1},
+                                                            blank_fill=" " * (1 + len(lines) % 3))))
     else:
         # exhaustive single-gap sweep
         for (gi, left, right, gk) in gaps:
@@ -221,7 +225,7 @@ def run_case(case):
         if name.startswith("gap"):
             gi = int(name[3:].split("=")[0])
             sig_gap = next(g for g in gaps if g[0] == gi)
-        elif "blanks" in kw and name not in ("qmark", "cr", "crlf", "nul", "blank-lines"):
+        elif "blanks" in kw and name not in ("qmark", "cr", "crlf", "nul", "blank-lines") and not name.startswith("blanks-only-lines"):
             for g in gaps:
                 nb = kw["blanks"](g[0], g[3])
                 dflt = 1 if g[3] in ("soft", "req") else 0
